@@ -375,6 +375,30 @@ def surroundings_variants(pid, ctx, limit=40):
     return work[:limit * 2]
 
 
+def diagnostic_variants(pid, ctx):
+    """A diagnostic inserted at the top of a function under contract, body otherwise untouched: (red) one whose argument can
+    raise - `print(", ".join(sorted(x)))` - must be reported; (green) its total twin - `print("enter", x)` - must stay silent."""
+    if pid in PURITY_PROPS:
+        return [], []
+    program, K = ctx.program, ctx.contracts
+    red, green = [], []
+    for q in sorted({q for (q, v) in K.refs if pid in K.refs[(q, v)][2].get("props", [])}):
+        fi = program.functions.get(q)
+        if fi is None or not fi.node.body:
+            continue
+        body = [b for b in fi.node.body if not (isinstance(b, ast.Expr) and isinstance(b.value, ast.Constant) and isinstance(b.value.value, str))]
+        if not body or body[0].lineno == fi.node.lineno or not fi.params:
+            continue
+        arg = fi.params[1] if len(fi.params) > 1 and fi.cls is not None and "staticmethod" not in fi.decorators else fi.params[0]
+        lines = fi.module.src.split("\n")
+        ind = " " * body[0].col_offset
+        at = min([body[0].lineno] + [d.lineno for d in getattr(body[0], "decorator_list", [])]) - 1
+        mk = lambda stmt: "\n".join(lines[:at] + [ind + stmt] + lines[at:])
+        red.append((pid, fi.module.relpath, mk(f'print(", ".join(sorted({arg})))'), f"S|{q}|diagnostic-partial|print of a join over sorted({arg}) can raise"))
+        green.append((pid, fi.module.relpath, mk(f'print("enter", {arg})'), f"R|{q}|diagnostic-total|"))
+    return red, green
+
+
 # ------------------------------------------------------------------------------------------------ stored corpus
 def apply_unified_diff(files, diff_text):
     """Apply a git unified diff to {relpath: source}; returns {relpath: new source} for the touched files (in memory)."""
@@ -538,7 +562,14 @@ def run(pid, ctx, seed):
         sv_work = []
     rng.shuffle(sv_work)
     sv_work = sv_work[:60]
-    work = work + sv_work
+    try:
+        d_red, d_green = diagnostic_variants(pid, ctx)
+    except Exception:
+        d_red, d_green = [], []
+    pick = list(range(len(d_red)))
+    rng.shuffle(pick)
+    pick = pick[:12]
+    work = work + sv_work + [d_red[i] for i in pick] + [d_green[i] for i in pick]
     nproc = min(16, os.cpu_count() or 4)
     with multiprocessing.get_context("fork").Pool(nproc) as pool:
         results = pool.map(_evaluate, work, chunksize=4)
@@ -567,7 +598,7 @@ def run(pid, ctx, seed):
                   + (f"; NOT silent on: {[r[0] for r in rw_red][:5]}" if rw_red else "")))
     obs.append(Ob("selftest.surroundings", "selftest", where, "ok" if not sur_green else "inconclusive",
                   f"{len(sur_valid) - len(sur_green)}/{len(sur_valid)} variants that leave all bodies untouched (memoising decorator on a specified "
-                  f"function, override in a subclass) turn an obligation red"
+                  f"function, override in a subclass, a diagnostic whose argument can raise) turn an obligation red"
                   + (f"; NOT reported: {[r[0] for r in sur_green][:5]}" if sur_green else "")))
     cor = corpus(pid, ctx)
     obs = obs + cor.pop("obligations", [])
